@@ -254,6 +254,22 @@ def clause3_responses(ctx, P):
     ctx.ob("C02.3 R-GATE", d, "incoming-response:no-answer", bad is None and n >= 2,
            "an incoming response object (no method, result/error present) reaches send_response or a response constructor"
            if bad else "%d response-handling path(s) send nothing" % n, witness=bad.witness() if bad else None)
+    # an answer with a "result" member IS a result ('exactly one of result or error' is what cjet hands on): the error member is
+    # only looked at when there is no result - {"result": R, "error": null}, the JSON-RPC 1.0 shape of success, relays R
+    bado = None
+    nerr = 0
+    for v in views:
+        for _, c in v.calls("handle_routing_response"):
+            if Q.arg_literal(P, c, 2) == "error":
+                nerr += 1
+                absent = v.has_atom(lambda a, p: a[0] == "cmp" and Q.is_call_to(a[2], "cJSON_GetObjectItem") and
+                                    a[2][2][1] == ("str", "result") and a[3] == ("null",) and Q._poleq(a, p))
+                if not absent:
+                    bado = v
+    ctx.ob("C02.3 R-ORDER", d, "error-member-only-without-result", bado is None and nerr >= 1,
+           "parse_json_rpc relays the \"error\" member of an answer on a path that has not found the \"result\" member absent: an owner "
+           "answering {\"result\": R, \"error\": null} has its result dropped and the caller gets error null",
+           witness=bado.witness() if bado else None)
     h = P.fn("router.c:handle_routing_response")
     for c in h.calls(("format_and_send_response",)):
         t = P.term(h, c.a[0])
